@@ -44,6 +44,13 @@ func c18Kinds() []c18Kind {
 		{"ref-file-missing-def", J{"$ref": "lib.json#/$defs/Nope"}, []genlab.File{{Path: "lib.json", Content: `{"$id":"lib","$defs":{"Here":{"type":"object","properties":{"k":{"type":"string"}}}}}`}}},
 		{"array-of-unknown", J{"type": "array", "items": J{"type": "strng"}}, nil},
 		{"object-with-unknown", J{"type": "object", "properties": J{"inner": J{"type": "strng"}}}, nil},
+		{"typed-enum-object-member", J{"type": "string", "enum": A{"a", J{"x": 1}}}, nil},
+		{"mixed-enum-object-member", J{"enum": A{"a", 1, J{"x": 1}}}, nil},
+		{"enum-array-value", J{"enum": A{A{1}}}, nil},
+		{"ref-whole-file-without-root", J{"$ref": "defsonly.json"}, []genlab.File{{Path: "defsonly.json", Content: `{"$id":"defsonly","definitions":{"Thing":{"type":"object","properties":{"k":{"type":"string"}}}}}`}}},
+		{"ref-def-referring-to-null-def", J{"$ref": "nulls.json#/$defs/A"}, []genlab.File{{Path: "nulls.json", Content: `{"$id":"nulls","type":"object","$defs":{"A":{"$ref":"#/$defs/B"},"B":null}}`}}},
+		{"ref-file-with-null-root-property", J{"$ref": "nullprop.json"}, []genlab.File{{Path: "nullprop.json", Content: `{"$id":"nullprop","type":"object","properties":{"p":null}}`}}},
+		{"object-default-empty-key", J{"type": "object", "properties": J{"x": J{"type": "integer"}}, "default": J{"": 1}}, nil},
 		// not faults (controls): must be accepted everywhere they are accepted at the root property
 		{"control-string", J{"type": "string"}, nil},
 		{"control-array-no-items", J{"type": "array"}, nil},
@@ -131,6 +138,24 @@ func c18Positions() []c18Position {
 					"properties": J{"c": J{"allOf": A{J{"$ref": "#/$defs/Missing"}, q}}, "r": J{"$ref": "other.json"}}})},
 					{Path: "other.json", Content: space.Text(J{"$id": "other", "type": "object", "properties": J{"c": J{"allOf": A{f, q}}}})}},
 				[]string{"s.json"}
+		}},
+		{"allOf-second-branch", true, func(f any) ([]genlab.File, []string) {
+			return one(J{"type": "object", "properties": J{"ok": ok, "c": J{"allOf": A{q, f}}}})
+		}},
+		{"anyOf-second-branch", true, func(f any) ([]genlab.File, []string) {
+			return one(J{"type": "object", "properties": J{"ok": ok, "c": J{"anyOf": A{q, f}}}})
+		}},
+		{"allOf-branch-after-string-branch", true, func(f any) ([]genlab.File, []string) {
+			return one(J{"type": "object", "properties": J{"ok": ok, "c": J{"allOf": A{ok, f}}}})
+		}},
+		{"anyOf-branch-after-string-branch", true, func(f any) ([]genlab.File, []string) {
+			return one(J{"type": "object", "properties": J{"ok": ok, "c": J{"anyOf": A{ok, f}}}})
+		}},
+		{"definition-allOf-branch", true, func(f any) ([]genlab.File, []string) {
+			return one(J{"type": "object", "properties": J{"ok": ok, "d": J{"$ref": "#/$defs/D"}}, "$defs": J{"D": J{"allOf": A{q, f}}}})
+		}},
+		{"additional-properties-next-to-properties", false, func(f any) ([]genlab.File, []string) {
+			return one(J{"type": "object", "properties": J{"ok": ok, "o": J{"type": "object", "properties": J{"k": ok}, "additionalProperties": f}}})
 		}},
 		{"map-value", false, func(f any) ([]genlab.File, []string) {
 			return one(J{"type": "object", "properties": J{"ok": ok, "m": J{"type": "object", "additionalProperties": f}}})
@@ -292,7 +317,7 @@ func c18(ctx *Ctx) {
 		isFault[r.kind] = r.res.Exit != 0
 	}
 	ctx.Run.Cov["fault_kinds_by_consistency_probe"] = isFault
-	for _, want := range []string{"unknown-type", "ref-missing-def", "ref-missing-file", "empty-enum", "enum-object-value"} {
+	for _, want := range []string{"unknown-type", "ref-missing-def", "ref-missing-file", "empty-enum", "enum-object-value", "typed-enum-object-member", "mixed-enum-object-member", "enum-array-value"} {
 		if !isFault[want] {
 			ctx.Run.Violation("fault-ignored:"+want+":root-property", fmt.Sprintf("C18: %s as a plain root property is accepted with exit status 0 although the statement names it as ungeneratable", want),
 				map[string]any{"kind": "cli", "kindName": want})
@@ -407,8 +432,12 @@ func c18(ctx *Ctx) {
 	byOutcome := map[string]int{}
 	known := func(r *c18Run) string {
 		switch {
-		case r.kind == "empty-enum" && (r.pos == "allOf-branch" || strings.Contains(r.pos, "-allOf-same-ref-text")) && r.res.Exit == 0:
+		case r.pos == "definition-allOf-branch" && r.fault == 1 && r.res.Exit == 0:
+			return "UNTYPED_COMPOSITE_DEFINITION_NOT_GENERATED"
+		case r.kind == "empty-enum" && (r.pos == "allOf-branch" || r.pos == "allOf-second-branch" || r.pos == "allOf-branch-after-string-branch" || strings.Contains(r.pos, "-allOf-same-ref-text")) && r.res.Exit == 0:
 			return "EMPTY_ENUM_ALLOF_BRANCH_IGNORED"
+		case strings.Contains(r.kind, "enum") && r.pos == "allOf-branch-after-string-branch" && r.fault == 1 && r.res.Exit == 0:
+			return "PRIMITIVE_ALLOF_BRANCHES_NOT_GENERATED"
 		case r.kind == "malformed" && strings.HasPrefix(r.pos, "trailing-") && r.res.Exit == 0:
 			return "TRAILING_BYTES_IGNORED"
 		case r.kind == "malformed" && strings.HasPrefix(r.pos, "subst-") && r.res.Exit == 0 && r.fault == 1 && json.Valid([]byte(firstJSONValue(r.files[0].Content))):
